@@ -30,12 +30,24 @@ pub trait SemFlavor: 'static {
     fn disarm(r: &mut Self::Rel) -> usize;
     fn debug(s: &Self::Sem) -> String;
     fn node_debug(f: &Self::Fut) -> String;
+    /// non-owning view of the state (shared flavour): lets the harness give up its own handle
+    type Probe;
+    fn probe(_s: &Self::Sem) -> Option<Self::Probe> {
+        None
+    }
+    fn probe_snapshot(_p: &Self::Probe) -> Option<Snapshot> {
+        None
+    }
+    fn probe_debug(_p: &Self::Probe) -> Option<String> {
+        None
+    }
 }
 
 pub struct Borrowed<M>(PhantomData<M>);
 pub struct Shared<M>(PhantomData<M>);
 
 impl<M: RawMutex + 'static> SemFlavor for Borrowed<M> {
+    type Probe = ();
     type Sem = Box<GenericSemaphore<M>>;
     type Fut = GenericSemaphoreAcquireFuture<'static, M>;
     type Rel = GenericSemaphoreReleaser<'static, M>;
@@ -74,6 +86,16 @@ impl<M: RawMutex + 'static> SemFlavor for Borrowed<M> {
 }
 
 impl<M: RawMutex + 'static> SemFlavor for Shared<M> {
+    type Probe = futures_intrusive::sync::VerifSharedSemaphore<M>;
+    fn probe(s: &Self::Sem) -> Option<Self::Probe> {
+        Some(s.verif_weak())
+    }
+    fn probe_snapshot(p: &Self::Probe) -> Option<Snapshot> {
+        p.verif_snapshot()
+    }
+    fn probe_debug(p: &Self::Probe) -> Option<String> {
+        p.verif_debug()
+    }
     type Sem = GenericSharedSemaphore<M>;
     type Fut = GenericSharedSemaphoreAcquireFuture<M>;
     type Rel = GenericSharedSemaphoreReleaser<M>;
@@ -122,6 +144,9 @@ pub enum Op {
     TryAcquire(u8),
     DropRel(u8),
     DisarmRel(u8),
+    /// shared flavour: the last `SharedSemaphore` handle is dropped; the futures and releasers
+    /// that exist keep the semaphore alive and must keep working
+    DropHandle,
 }
 
 struct Slot<F: SemFlavor> {
@@ -139,7 +164,9 @@ pub struct Sys<F: SemFlavor> {
     rels: Vec<(F::Rel, usize, bool)>,
     graveyard: Vec<Pinned<F::Fut>>,
     dead: Vec<(usize, usize)>,
-    sem: F::Sem,
+    sem: Option<F::Sem>,
+    probe: Option<F::Probe>,
+    drop_handle: bool,
     fair: bool,
     k: usize,
     sizes: Vec<u8>,
@@ -153,6 +180,33 @@ pub struct Sys<F: SemFlavor> {
 const G: usize = 0;
 
 impl<F: SemFlavor> Sys<F> {
+    fn sem(&self) -> &F::Sem {
+        self.sem.as_ref().expect("handle")
+    }
+    fn snap(&self) -> Snapshot {
+        match &self.sem {
+            Some(s) => F::snapshot(s),
+            None => self.probe.as_ref().and_then(|p| F::probe_snapshot(p)).unwrap_or_else(|| {
+                // nobody owns the semaphore any more
+                let mut sn = Snapshot::default();
+                sn.scalars = vec![self.fair as u64, self.ledger as u64];
+                sn.queues = vec![vec![]];
+                sn
+            }),
+        }
+    }
+    fn dbg(&self) -> String {
+        match &self.sem {
+            Some(s) => F::debug(s),
+            None => self.probe.as_ref().and_then(|p| F::probe_debug(p)).unwrap_or_default(),
+        }
+    }
+    fn permits_now(&self) -> usize {
+        match &self.sem {
+            Some(s) => F::permits(s),
+            None => self.snap().scalars[1] as usize,
+        }
+    }
     fn pending(&self, i: usize) -> bool {
         matches!(&self.slots[i], Some(s) if s.meta.pending())
     }
@@ -182,12 +236,16 @@ impl<F: SemFlavor> Sys<F> {
     /// checks that hold in every state
     fn invariants(&mut self, out: &mut StepOut) {
         // C18
-        let (na, nf) = harness::take_alloc_counts();
+        let (na, mut nf) = harness::take_alloc_counts();
+        if self.sem.is_none() {
+            // the futures and releasers own the state: dropping the last of them frees it
+            nf = 0;
+        }
         if na + nf > 0 {
             out.p("C18", "alloc-in-call", format!("{} allocations / {} frees inside library calls of this step", na, nf));
         }
         // C01 structure
-        let snap = F::snapshot(&self.sem);
+        let snap = self.snap();
         let live = self.live_nodes();
         structcheck::check_errors(&snap.errors, out);
         structcheck::check_queue("waiters", &snap.queues[0], &live, &self.dead, out);
@@ -201,7 +259,7 @@ impl<F: SemFlavor> Sys<F> {
             }
         }
         // C05 ledger
-        let p = F::permits(&self.sem);
+        let p = self.permits_now();
         if p != self.ledger {
             out.v("C05", "ledger", format!("permits()={} but initial+released-acquired+returned={}", p, self.ledger));
         }
@@ -230,7 +288,9 @@ impl<F: SemFlavor> System for Sys<F> {
             rels: vec![],
             graveyard: vec![],
             dead: vec![],
-            sem: F::new(fair, p0),
+            sem: Some(F::new(fair, p0)),
+            probe: None,
+            drop_handle: cfg.get_or("handle", 0) != 0,
             fair,
             k,
             sizes,
@@ -244,11 +304,11 @@ impl<F: SemFlavor> System for Sys<F> {
 
     fn enabled(&self) -> Vec<Op> {
         let mut v = vec![];
-        let mut created = false;
+        let mut created = self.sem.is_none();
         for i in 0..self.k {
             match &self.slots[i] {
                 None => {
-                    if !(self.symmetry && created) {
+                    if !(self.symmetry && created) && self.sem.is_some() {
                         for &n in &self.sizes {
                             v.push(Op::Create(i as u8, n));
                         }
@@ -272,11 +332,14 @@ impl<F: SemFlavor> System for Sys<F> {
             }
         }
         for n in 1..=2u8 {
-            if self.ledger + self.held() + n as usize <= self.cap {
+            if self.sem.is_some() && self.ledger + self.held() + n as usize <= self.cap {
                 v.push(Op::Release(n));
             }
         }
-        if self.rels.len() < self.max_rels {
+        if self.drop_handle && self.sem.is_some() && F::probe(self.sem()).is_some() {
+            v.push(Op::DropHandle);
+        }
+        if self.sem.is_some() && self.rels.len() < self.max_rels {
             for &n in &self.sizes {
                 v.push(Op::TryAcquire(n));
             }
@@ -296,7 +359,7 @@ impl<F: SemFlavor> System for Sys<F> {
         match op {
             Op::Create(i, n) => {
                 let i = i as usize;
-                match lib(|| F::acquire(&self.sem, n as usize)) {
+                match lib(|| F::acquire(self.sem(), n as usize)) {
                     Ok(f) => {
                         let mut meta = Meta::default();
                         meta.seen = sample_seen(G, i);
@@ -356,7 +419,7 @@ impl<F: SemFlavor> System for Sys<F> {
             }
             Op::PollDone(i) => {
                 let i = i as usize;
-                let before = format!("{:?}", F::snapshot(&self.sem).queues);
+                let before = format!("{:?}", self.snap().queues);
                 let waker = harness::waker(wid(G, i, 0));
                 let s = self.slots[i].as_mut().unwrap();
                 let r = lib(|| s.fut.pin().poll(&mut Context::from_waker(&waker)).is_ready());
@@ -365,7 +428,7 @@ impl<F: SemFlavor> System for Sys<F> {
                     Err(_) => out.o("panicked"),
                     Ok(ready) => out.v("C17", "poll-after-completion", format!("polling the completed future of slot {} did not panic (returned {})", i, if ready { "Ready: a second result" } else { "Pending" })),
                 }
-                let after = format!("{:?}", F::snapshot(&self.sem).queues);
+                let after = format!("{:?}", self.snap().queues);
                 if before != after {
                     out.v("C17", "poll-after-completion-changed-state", format!("wait queue changed: {} -> {}", before, after));
                 }
@@ -398,14 +461,14 @@ impl<F: SemFlavor> System for Sys<F> {
                 s.armed = false;
             }
             Op::Release(n) => {
-                if let Err(p) = lib(|| F::release(&self.sem, n as usize)) {
+                if let Err(p) = lib(|| F::release(self.sem(), n as usize)) {
                     out.v("C01", "panic", format!("release({}) panicked: {}", n, p));
                 }
                 self.ledger += n as usize;
             }
             Op::TryAcquire(n) => {
                 let anyp = (0..self.k).any(|j| self.pending(j));
-                match lib(|| F::try_acquire(&self.sem, n as usize)) {
+                match lib(|| F::try_acquire(self.sem(), n as usize)) {
                     Err(p) => out.v("C01", "panic", format!("try_acquire({}) panicked: {}", n, p)),
                     Ok(Some(r)) => {
                         out.o("Some");
@@ -445,6 +508,15 @@ impl<F: SemFlavor> System for Sys<F> {
                 }
                 e.2 = false;
             }
+            Op::DropHandle => {
+                self.probe = F::probe(self.sem());
+                let h = self.sem.take().unwrap();
+                // (not inside `lib`: if nothing else owns the semaphore this frees its state)
+                if let Err(e) = std::panic::catch_unwind(std::panic::AssertUnwindSafe(|| drop(h))) {
+                    let msg = e.downcast_ref::<&str>().map(|s| s.to_string()).or_else(|| e.downcast_ref::<String>().cloned()).unwrap_or_default();
+                    out.v("C01", "panic", format!("dropping the semaphore handle panicked: {}", msg));
+                }
+            }
         }
         // wake-ups observed during this step
         let wakes_after = harness::all_wakes();
@@ -456,7 +528,7 @@ impl<F: SemFlavor> System for Sys<F> {
     }
 
     fn fingerprint(&self) -> Vec<u8> {
-        let snap = F::snapshot(&self.sem);
+        let snap = self.snap();
         let mut v = vec![self.ledger as u8, snap.scalars[1] as u8];
         let order = self.order();
         let mut recs: Vec<Vec<u8>> = vec![];
@@ -499,7 +571,8 @@ impl<F: SemFlavor> System for Sys<F> {
             v.push(253);
         }
         v.push(254);
-        v.extend(harness::norm(&F::debug(&self.sem)));
+        v.extend(harness::norm(&self.dbg()));
+        v.push(self.sem.is_some() as u8);
         v.push(snap.queues[0].len() as u8);
         let mut rr: Vec<(u8, u8)> = self.rels.iter().map(|r| (r.1 as u8, r.2 as u8)).collect();
         rr.sort();
@@ -513,13 +586,17 @@ impl<F: SemFlavor> System for Sys<F> {
     /// drain closure: return all permits, let every woken future poll again,
     /// repeat; at the end the longest-waiting request must not fit.
     fn finish(mut self, out: &mut StepOut) {
+        if self.sem.is_none() {
+            // without a handle nothing can be released explicitly: no drain closure
+            return;
+        }
         // return everything that is held
         let rels: Vec<_> = self.rels.drain(..).collect();
         for (r, amt, armed) in rels {
             let _ = lib(|| drop(r));
             let _ = lib(|| {
                 if !armed {
-                    F::release(&self.sem, amt)
+                    F::release(self.sem(), amt)
                 }
             });
             self.ledger += amt;
@@ -537,7 +614,7 @@ impl<F: SemFlavor> System for Sys<F> {
                     let _ = lib(|| drop(r));
                     let _ = lib(|| {
                         if !armed {
-                            F::release(&self.sem, amt)
+                            F::release(self.sem(), amt)
                         }
                     });
                     self.ledger += amt;
@@ -562,7 +639,7 @@ impl<F: SemFlavor> System for Sys<F> {
         let order = self.order();
         if let Some(&head) = order.first() {
             let req = self.slots[head].as_ref().unwrap().req;
-            let p = F::permits(&self.sem);
+            let p = self.permits_now();
             if req <= p {
                 out.v("C06", "drain-head-never-completes", format!("after all permits were returned and every woken future polled again, the longest-waiting request (slot {}, {} permits) is still pending although permits()={}", head, req, p));
             }
